@@ -86,6 +86,11 @@ let handle (line : ostr) : ostr =
     let ids = if ids = "" then [] else List.map int_of_string (OS.split_on_char ',' ids) in
     let refs = List.fold_left (fun acc i -> add_ref acc (nat_of_int i)) [] ids in
     OS.concat "," (List.map of_bytes refs) ^ ":" ^ OS.concat "," (List.map (fun z -> string_of_int (int_of_z z)) (expand_refs refs))
+  | ["privn"; tree] ->
+    (* private-property linking (Model/Priv.v) of a root node as ParseStatement returns it, nested statements included *)
+    let n = node_of_string tree in
+    let fuel = nat_of_int (2 * int_of_nat (node_size n) + 8) in
+    wnode (deep_node priv_link_table fuel n)
   | ["echo"; tree] -> wstmt (stmt_of_string tree)
   | m :: _ -> "bad:unknown mode " ^ m
   | [] -> "bad:empty"
